@@ -4,7 +4,7 @@ from . import monitors as M
 
 PLAN = [('faults', 8, 3), ('timeouts', 6, 2), ('shutdown', 5, 1)]
 MONITORS = [M.mon_fault_body, M.mon_init_barrier, M.mon_fanout, M.mon_completion_barrier, M.mon_one_outcome, M.mon_stale_id]
-THEOREMS = "C08_reset_fresh"
+THEOREMS = "C08_reset_fresh, C08_early_arrival_counted, C08_no_pending_init_failure"
 CORPUS = ['C05', 'C08', 'C13', 'C15']
 
 
